@@ -139,8 +139,10 @@ def oracles(ctx, deep):
             out.append(v)
 
     rng = ctx.rng
-    for t in range(ctx.n(260, 3000) * (2 if deep else 1)):
-        base = G.random_config(rng)
+    bases = [G.random_config(rng) for _ in range(ctx.n(260, 3000) * (2 if deep else 1))]
+    # every generator x mode at its boundaries (one frame, odd widths)
+    bases += [b[:5] for b in G.boundary_configs(rng, seeds=ctx.n(1, 4))]
+    for base in bases:
         name, mode, shape, accel, cf = base
         # the seed the data pipeline passes is a tuple (file name characters); several (acceleration, centre fraction)
         # pairs make the seeded choice of the pair part of what the two calls must share
